@@ -2,6 +2,7 @@ package gen
 
 import (
 	"encoding/json"
+	"fmt"
 	"math"
 	"math/big"
 	"math/rand/v2"
@@ -84,6 +85,19 @@ func numberReprs(text string, o ReprOpts) []func() (any, string) {
 		add(NFloat(f), "NFloat")
 		if f32 := float32(f); float64(f32) == f {
 			add(f32, "float32")
+		}
+	}
+	if !o.NoNumberSpellings {
+		// other lexical forms of the same number: upper/lower-case exponent markers, shifted exponents (an integer spelled with a
+		// negative exponent, a fraction spelled without a decimal point), trailing zeros
+		if num, k, ok := decimalParts(r); ok {
+			add(json.Number(fmt.Sprintf("%sE-%d", num, k)), "json.Number(E-k)")
+			add(json.Number(fmt.Sprintf("%s0e-%d", num, k+1)), "json.Number(0e-k)")
+			if k > 0 {
+				add(json.Number(fmt.Sprintf("%se-%d", num, k)), "json.Number(e-k)")
+			} else {
+				add(json.Number(fmt.Sprintf("%sE+0", num)), "json.Number(E+0)")
+			}
 		}
 	}
 	if r.IsInt() {
@@ -459,4 +473,20 @@ func mapOf(r *rand.Rand, model, els map[string]any, o ReprOpts, t *ReprTrace) an
 		return NMap(els)
 	}
 	return els
+}
+
+// decimalParts writes r as num / 10^k with the smallest k >= 0 (ok=false if r has no short terminating decimal expansion).
+func decimalParts(r *big.Rat) (num string, k int, ok bool) {
+	v := new(big.Rat).Set(r)
+	ten := big.NewRat(10, 1)
+	for k = 0; k <= 25; k++ {
+		if v.IsInt() {
+			if v.Num().BitLen() > 200 {
+				return "", 0, false
+			}
+			return v.Num().String(), k, true
+		}
+		v.Mul(v, ten)
+	}
+	return "", 0, false
 }
